@@ -141,12 +141,21 @@ def _indicator_array(w):
 def divide(a, b, out=None, where=True, **kw):
     if not _isobj(a, b, where, out):
         return _np.divide(a, b, out=out, where=where, **kw)
-    q = _np.asarray(a, dtype=object).view(S.SymArray) / _np.asarray(b, dtype=object)
     if where is True:
-        return q
-    ind = _indicator_array(where)
-    base = _np.asarray(out, dtype=object) if out is not None else 0
-    return ind * q + (1 - ind) * base
+        return _np.asarray(a, dtype=object).view(S.SymArray) / _np.asarray(b, dtype=object)
+    A, B, W = _np.broadcast_arrays(_np.asarray(a, dtype=object), _np.asarray(b, dtype=object), _np.asarray(where, dtype=object))
+    base = _np.broadcast_to(_np.asarray(out, dtype=object), A.shape) if out is not None else None
+    res = _np.empty(A.shape, dtype=object).view(S.SymArray)
+    for idx in _np.ndindex(*A.shape):
+        w = W[idx]
+        ind = w.indicator() if isinstance(w, SymBool) else RF.const(1 if w else 0)
+        b0 = _elem(base[idx]) if base is not None else RF({})
+        if not ind.p:
+            res[idx] = b0
+            continue
+        q = _elem(A[idx]) / _elem(B[idx])
+        res[idx] = ind * q + (1 - ind) * b0
+    return res
 
 
 def where(c, *a):
